@@ -42,6 +42,9 @@ func (sc *Scen) restartNode() error {
 func (sc *Scen) randomPlan() Plan {
 	r := sc.r
 	var p Plan
+	if op, ok := extPlan(sc); ok { // per-property plan override (fsm_ext.go)
+		return op
+	}
 	if sc.clean || r.Chance(55) {
 		return p // no failure injected in this step
 	}
@@ -187,6 +190,9 @@ var directedScenarios = []directed{
 }
 
 func (sc *Scen) stepNamed(n string) {
+	if extStep(sc, n) { // per-property step names (fsm_ext.go)
+		return
+	}
 	// "tip=anchor+N": set the chain tip relative to the swap's persisted anchor / start height
 	if strings.HasPrefix(n, "tip=anchor") {
 		var off int64
@@ -226,10 +232,19 @@ func (sc *Scen) stepNamed(n string) {
 	case "duplicate":
 		sc.stepDuplicate()
 	default:
-		// steps registered by per-property files (harness/fsm_ext.go)
-		runExtraStep(sc, n)
+		// additive: step kinds registered by per-property files (registerStepKind)
+		for _, h := range extraStepKinds {
+			if h(sc, n) {
+				return
+			}
+		}
 	}
 }
+
+// registerStepKind lets per-property files add directed step kinds (init-time); a handler returns true when it recognised the name
+var extraStepKinds []func(sc *Scen, name string) bool
+
+func registerStepKind(h func(sc *Scen, name string) bool) { extraStepKinds = append(extraStepKinds, h) }
 
 func (sc *Scen) claimAmount() (amt uint64) {
 	defer func() {
